@@ -519,6 +519,12 @@ void w_DuplicateCols(PS_PARAMS, int m_j, int m_k, double m_loJ, double m_upJ, do
                      int m_isFirst, int m_isLast, int* perm, int perm_n)
 __CPROVER_requires(PS_WF && 0 <= m_j && m_j < nC && 0 <= m_k && m_k < nC && ARR_OK(perm, DIM, int) && 0 <= perm_n && perm_n <= nC && ALL8(PERM_OK))
 __CPROVER_requires(MAIN ==> (m_j != m_k && DEFINED(cst[m_k])))
+#ifdef PS_ONLY_MAIN        /* the two instances DuplicateCols_main / DuplicateCols_perm split the proof by role */
+__CPROVER_requires(MAIN)
+#endif
+#ifdef PS_ONLY_PERM
+__CPROVER_requires(!MAIN)
+#endif
 __CPROVER_requires(g_may_throw == ((MAIN && (cst[m_k] == ZERO || cst[m_k] == BASIC)) ? 2 : 0) && g_n == perm_n)
 __CPROVER_requires(GHOST_COL && GHOST_ROW)
 __CPROVER_requires(g_a == ((g_kc < perm_n && perm[g_kc] >= 0) ? perm[g_kc] : g_kc) && SAME(v_x2, x[g_a]) && SAME(v_r2, r[g_a]) && v_cs2 == cst[g_a])
@@ -568,12 +574,13 @@ void h_DuplicateCols(void)
 #define RP rst[scale_idx[g_k2]]
 #define RQ rst[scale_idx[g_kc2]]
 #define CAND(m) (0 <= (m) && (m) < nR && (m) != m_i && SV_HAS(scale_idx, scale_n, m) && rst[m] != BASIC)
+#define SCALEIDX_OK(k) ((k) >= scale_n || (0 <= scale_idx[k] && scale_idx[k] < nR))
 void w_DuplicateRows(PS_PARAMS, int m_i, double m_i_rowObj, int m_maxLhsIdx, int m_minRhsIdx, int m_maxSense, int m_isFirst,
                      int m_isLast, int m_fixed, int m_nCols, int* scale_idx, double* scale_val, int scale_n,
                      int* robj_idx, double* robj_val, int* rIdxLocalOld, int* perm, int perm_n, _Bool* isLhsEqualRhs)
 __CPROVER_requires(PS_WF && 0 <= m_i && m_i < nR && SV_WF(scale_idx, scale_val, scale_n) && SV_WF(robj_idx, robj_val, scale_n)
                    && ARR_OK(rIdxLocalOld, CAP, int) && ARR_OK(isLhsEqualRhs, CAP, _Bool) && ARR_OK(perm, DIM, int))
-__CPROVER_requires(1 <= scale_n && SV_DISTINCT(scale_idx, scale_n) && SV_HAS(scale_idx, scale_n, m_i))
+__CPROVER_requires(1 <= scale_n && SV_DISTINCT(scale_idx, scale_n) && SV_HAS(scale_idx, scale_n, m_i) && ALLK(SCALEIDX_OK) && GHOST_DIMS)
 __CPROVER_requires(0 <= perm_n && perm_n <= nR && ALL8(PERM_OK) && (m_isLast ==> (m_i < perm_n && perm[m_i] >= 0)))
 __CPROVER_requires(SAME(SV_GET(scale_idx, robj_val, scale_n, m_i), m_i_rowObj) && SAME(v_x2, m_i_rowObj))
 __CPROVER_requires(g_n == scale_n && g_n2 == perm_n && g_a == m_i && g_c == m_maxLhsIdx && g_d == m_minRhsIdx && g_e == SRC(m_i)
